@@ -399,6 +399,22 @@ example : (match partitionAll 2 [1, 0] (PState.init : PState Nat) with
      [0, 1]) := by
   decide +kernel
 
+/-- the three reader kinds as `create_default_reader` builds them satisfy `Reader.OK` -/
+example : (⟨.fast .index, ⟨[1, 2, 3, 4, 5].drop 1, 3, 0, 2⟩, mkGen none none false none false⟩ : Reader Nat).OK 2 := by
+  simp [Reader.OK]
+example : (⟨.sourceOnly, ⟨[1, 2, 3, 4, 5, 6].drop 2, 4, 0, 4⟩, mkGen none none false none false⟩ : Reader Nat).OK 2 := by
+  simp [Reader.OK, Slice.window]
+example : (⟨.regular, ⟨[1, 2, 3, 4, 5].drop 1, 3, 0, 2⟩, mkGen (some [1, 2, 3]) (some 25) true (some 0) false⟩ : Reader Nat).OK 2 :=
+  ⟨rfl, [1, 2, 3], rfl, rfl, by simp [Slice.window], by norm_num⟩
+
+/-- race of 3 clients on two workers (client 0 | clients 1,2): the file lines of all bulks of both workers —
+    a permutation of all 18 lines of the three files -/
+example : ([(0, 0), (1, 2)].flatMap fun (r : Nat × Nat) =>
+      match workerBulks o0 cfgMeta corpora0 3 r.1 r.2 ⟨0, 0, 0, 0⟩ with
+      | .ok (bs, _) => bs.flatMap (fun (b : Bulk.Bulk Nat) => srcLines b.body)
+      | .error _ => []) = [0, 1, 20, 21, 10, 11, 22, 23, 24, 2, 3, 4, 5, 6, 12, 13, 14, 15] := by
+  decide +kernel
+
 /-- a file of 5 short lines (the last one unterminated): table every 2 lines, skipping 3 lines -/
 example : prepareOffsetTable 2 [97, 10, 98, 99, 10, 10, 100, 10, 101] = ([(2, 5), (4, 8)], 5) ∧
     (skipLines (some [(2, 5), (4, 8)]) [97, 10, 98, 99, 10, 10, 100, 10, 101] 3).pos = 6 ∧
